@@ -97,7 +97,10 @@ def apply_contract(ctx, cs, fn, args, kwargs):
     if len(cs) > 1 or cs[0].accepts is not None:
         sel = [x for x in cs if x.accepts is None or x.accepts(ctx, ns)]
         if not sel:
-            raise Unsupported("no contract of %s accepts these argument types" % c.target)
+            # no summary fits this call: execute the real body instead (still sound, just not modular)
+            if isinstance(target, type):
+                return ctx.instantiate(target, args, kwargs)
+            return ctx.invoke_repo_function(fn, args, kwargs)
         c = sel[0]
     caller = ctx.proof_label
     ctx.used_contracts.add(c.label)
